@@ -130,7 +130,10 @@ def record(analysis, it, cl: Classifier, out, ctxname: str, root="__init__:Gatew
                 extra = e.args[2:] if len(e.args) > 2 else ()
                 if len(extra) == 1 and isinstance(extra[0], TupleV):
                     extra = extra[0].items
-                rec["sinks"].append({"kind": "add_job", "idx": idx, "func": caller, "line": e.line, "job": vdesc(it, st, f), "jobargs": [vdesc(it, st, a) for a in extra], "msg": (f.recv.key() if isinstance(f, BoundV) else None), "facts": fact_tags(e.facts, msgkey), "stack": list(e.stack)})
+                fields = None
+                if isinstance(f, BoundV) and isinstance(f.recv, Obj):
+                    fields = {a: vdesc(it, st, st.mem.get((f.recv.key(), "a", a))) for a in ("node_id", "child_id", "type", "ack", "sub_type", "payload")}
+                rec["sinks"].append({"kind": "add_job", "idx": idx, "func": caller, "line": e.line, "job": vdesc(it, st, f), "jobargs": [vdesc(it, st, a) for a in extra], "msg": (f.recv.key() if isinstance(f, BoundV) else None), "fields": fields, "facts": fact_tags(e.facts, msgkey), "stack": list(e.stack)})
             if q == "message:Message.copy":
                 pass
             rec["calls"].append(q)
@@ -169,7 +172,7 @@ def record(analysis, it, cl: Classifier, out, ctxname: str, root="__init__:Gatew
     handler_ret = None
     for e in st.events:
         if e.kind == "exit" and e.func == root and (e.name.startswith("handler:") or "._handle_" in e.name):
-            handler_ret = e.args[0] if e.args else None
+            handler_ret = e.retval
     rec["handler_ret"] = reply_desc(it, st, handler_ret, msgkey, objs_new)
     rec["msgkey"] = repr(msgkey)
     if kind == "val":
